@@ -441,8 +441,16 @@ func lengthFact(p *Prog, fi *FuncInfo, base ast.Expr, need int64, stack []ast.No
 		}
 		return exprString(call.Args[0]) == bs
 	}
+	// short-circuit evaluation: in `a || b` the operand b runs only when a is false, in `a && b` only when a is true
+	gs := guardsOf(stack, n)
+	full := append(append([]ast.Node{}, stack...), n)
+	for i := 0; i+1 < len(full); i++ {
+		if be, ok := full[i].(*ast.BinaryExpr); ok && (be.Op == token.LOR || be.Op == token.LAND) && full[i+1] == ast.Node(be.Y) {
+			gs = append(gs, Guard{Cond: be.X, Neg: be.Op == token.LOR, Node: be})
+		}
+	}
 	// guards: if len(x) == K / >= K / > K (taken) ; if len(x) != K / < K (not taken, early exit) ; switch len(x) case K
-	for _, g := range guardsOf(stack, n) {
+	for _, g := range gs {
 		if g.Cond == nil {
 			continue
 		}
@@ -1261,7 +1269,7 @@ func dirtyObligations(p *Prog, r *Report) {
 			site := fmt.Sprintf("%s/Dirty=true#%d", fi.Name(), cnt)
 			pos := p.PosStr(st.Pos())
 			b := st.Block()
-			switch fi.Name() {
+			switch p.anchorFor(fi, []string{"generator.(*generator).ReturnError", "generator.(*generator).requireContext", "generator.(*generator).shouldCreateSubMethod", "generator.setupGenerator"}) {
 			case "generator.(*generator).ReturnError":
 				// dominated by the false edge of a load of <same method>.ReturnError, and ReturnError = true stored in the same block
 				okGuard := dominatedByEdge(b, false, func(c ssa.Value) bool { return readsNamedFieldUnder(c, fa.X, "ReturnError") }) ||
@@ -1351,9 +1359,9 @@ func remarkHelperTied(p *Prog, fi *FuncInfo) string {
 		}
 		for _, c := range callsIn(sf, true, func(o *types.Func) bool { return o.Origin() == fi.Obj.Origin() }) {
 			n++
-			name := caller.Name()
+			name := p.anchorFor(caller, []string{"generator.(*generator).ReturnError", "generator.(*generator).requireContext"})
 			if name != "generator.(*generator).ReturnError" && name != "generator.(*generator).requireContext" {
-				return "called from " + name
+				return "called from " + caller.Name()
 			}
 			tied := false
 			for _, x := range c.(ssa.Instruction).Block().Instrs {
